@@ -515,6 +515,14 @@ func (db *pgmini) evalCond(c string, r row) (bool, error) {
 	if low == "true" {
 		return true, nil
 	}
+	if m := reJSONPathSeg.FindStringSubmatch(strings.TrimSpace(c)); m != nil {
+		seg, err := db.segments(m[1], r)
+		if err != nil {
+			return false, err
+		}
+		i, _ := strconv.Atoi(m[2])
+		return i < len(seg) && seg[i] == m[3], nil
+	}
 	m := reCmp.FindStringSubmatch(c)
 	if m == nil {
 		return false, unsup("condition %q", c)
@@ -596,7 +604,34 @@ func (db *pgmini) allAssets(ledger any) []string {
 	return out
 }
 
+// segments of the address column behind an "<address column>_array" reference (the schema keeps the
+// segments of every address next to it as a jsonb array)
+func (db *pgmini) segments(ref string, r row) ([]string, error) {
+	ref = strings.TrimSpace(ref)
+	if !strings.HasSuffix(ref, "_array") {
+		return nil, unsup("array reference %q", ref)
+	}
+	v, err := db.evalExpr(strings.TrimSuffix(ref, "_array"), r)
+	if err != nil {
+		return nil, err
+	}
+	s, ok := v.(string)
+	if !ok {
+		return nil, unsup("array reference %q over %T", ref, v)
+	}
+	return strings.Split(s, ":"), nil
+}
+
+var reJSONPathSeg = regexp.MustCompile(`^(\S+)\s*@@\s*\('\$\[(\d+)\] == "([^"']*)"'\)::jsonpath$`)
+
 func (db *pgmini) call(name string, args []string, r row) (any, error) {
+	if name == "jsonb_array_length" && len(args) == 1 {
+		seg, err := db.segments(args[0], r)
+		if err != nil {
+			return nil, err
+		}
+		return int64(len(seg)), nil
+	}
 	vals := make([]any, len(args))
 	for i, a := range args {
 		// named notation: _before := x
@@ -1157,9 +1192,9 @@ func (db *pgmini) Answer(sql string) ([]string, [][]driver.Value, error) {
 }
 
 var (
-	reInl1 = regexp.MustCompile(`(?is)^distinct\s+on\s*(\([^)]*\))\s*(.*)$`)
-	reInl2 = regexp.MustCompile(`(?i)\b(left\s+join\s+lateral|left\s+join|join\s+lateral|join)\b`)
-	reInl3 = regexp.MustCompile(`(?is)^(.*?)(?:\s+as)?\s+"?(\w+)"?$`)
+	reInl1  = regexp.MustCompile(`(?is)^distinct\s+on\s*(\([^)]*\))\s*(.*)$`)
+	reInl2  = regexp.MustCompile(`(?i)\b(left\s+join\s+lateral|left\s+join|join\s+lateral|join)\b`)
+	reInl3  = regexp.MustCompile(`(?is)^(.*?)(?:\s+as)?\s+"?(\w+)"?$`)
 	reInl11 = regexp.MustCompile(`^"?(\w+)"?\s+(?:as\s+)?"?(\w+)"?$`)
 	reInl12 = regexp.MustCompile(`^"?(\w+)"?\.\*$`)
 )
